@@ -326,6 +326,17 @@ def run(ctx):
                 for sd in (list(range(ctx.n(8, 24))) if tied else seeds[:ctx.n(2, 4)]):
                     jobs.append({"id": "%s|%s|%s|%d|pool" % (nm, variant, ni, sd), "api": nm, "variant": variant,
                                  "net": netof(ni)[0], "seed": sd, "neti": ni, "pool": True})
+    # call -> snapshot -> damage the returned object in place -> call again (see c17_worker.run_mutate): every seeded API
+    for a in js["apis"]:
+        nm = a["name"]
+        if nm in NOT_EXERCISED:
+            continue
+        for variant in VARIANTS.get(nm, ["default"]):
+            use_nets = [None] if nm in NO_NET else (["s0"] if nm in SIMPLE_NET else [0])
+            for ni in use_nets:
+                for sd in seeds[:1 if nm in SLOW else 2]:
+                    jobs.append({"id": "%s|%s|%s|%d|mutate" % (nm, variant, ni, sd), "api": nm, "variant": variant,
+                                 "net": None if ni is None else netof(ni)[0], "seed": sd, "neti": ni, "mutate": True})
     # corpus: the repro of every known finding is probed on every run
     corpus = []
     if os.path.isdir(CORPUS):
@@ -407,6 +418,10 @@ def run(ctx):
             ctx.count("api:" + nm.split(".")[-1])
             if job.get("repeat"):
                 ctx.count("repeat-on-same-object:" + job["repeat"])
+            if job.get("mutate"):
+                ctx.count("mutate-returned-object")
+                if any(isinstance(r.get("result"), dict) and r["result"].get("edits") for r in recs.values()):
+                    ctx.count("mutate-returned-object:really-edited")
             if job.get("pool"):
                 ctx.count("pool-order:" + nm.split(".")[-1])
                 if any(isinstance(r.get("result"), dict) and r["result"].get("pool_used") for r in recs.values()):
@@ -430,15 +445,23 @@ def run(ctx):
             confirmed[nm] = True
         # (c) oracle: same arguments + same seed => same result
         inside_flag = any(isinstance(r.get("result"), dict) and (r["result"].get("POOL_ORDER_MATTERS") or
+                                                                 r["result"].get("RESULT_DEPENDS_ON_EARLIER_CALLERS") or
                                                                  r["result"].get("REPEATED_CALLS_DIFFER"))
                           for r in recs.values())
         if len(distinct) > 1 or inside_flag:
             ctx.count("nondeterministic_jobs")
-            rk = (nm, variant, "res" + (":rep" if job.get("repeat") else "") + (":pool" if job.get("pool") else ""))
+            rk = (nm, variant, "res" + (":rep" if job.get("repeat") else "") + (":pool" if job.get("pool") else "")
+                  + (":mut" if job.get("mutate") else ""))
             if rk not in reported:
                 reported.add(rk)
                 reported.add((nm, variant, "res"))
-                if job.get("pool"):
+                if job.get("mutate"):
+                    replay["how"] = ("harness/props/c17_worker.py run_mutate(api, variant, net, seed): call, snapshot, edit the "
+                                     "returned object in place, call again with identical arguments")
+                    ctx.fail("seeded call is not a function of its arguments and seed: after the object returned by %s [%s] "
+                             "was edited in place, the same call returns the edited object" % (nm, variant),
+                             replay, key=None, found_input=True)
+                elif job.get("pool"):
                     replay["how"] = ("harness/props/c17_worker.py run_pool(api, variant, net, seed): the same call with "
                                      "parallel = an in-line FIFO executor, a LIFO one, FIFO again, and parallel=False")
                     ctx.fail("seeded call depends on the order in which the supplied pool runs its tasks: %s [%s] gives "
